@@ -50,7 +50,11 @@ func (p *ProofWithKey) DecodeBinary(r *io.BinReader) {
 	p.Key = r.ReadVarBytes()
 	sz := r.ReadVarUint()
 	for range sz {
-		p.Proof = append(p.Proof, r.ReadVarBytes())
+		b := r.ReadVarBytes()
+		if r.Err != nil {
+			return
+		}
+		p.Proof = append(p.Proof, b)
 	}
 }
 
